@@ -132,6 +132,11 @@ def run(ctx):
                         ["open", "fc", "/keep/C1.BIN", "w"], ["write", "fc", "c1" * v.bpc], ["hclose", "fc"]] + \
                        [["create", f"/work/W{q:02d}.TXT"] for q in range(10)] + [["remove", "/keep/A1.BIN"], ["remove", "/keep/C1.BIN"]]
                 work = [["create", "/work/" + "n" * 236 + ".txt"]] + work
+            if i % 4 == 0:
+                # a handle truncated AT its position on a cluster boundary, the released cluster handed to a new durable file in another directory,
+                # then a write through the handle (C12-m9 = C02-m4: the cursor stayed on the released cluster — the write lands in the other file)
+                work = [["open", "tt", "/work/T.BIN", "w+"], ["write", "tt", "54" * (3 * v.bpc)], ["seek", "tt", 2 * v.bpc, 0], ["truncate", "tt", None],
+                        ["open", "nn", "/keep/N.BIN", "w"], ["write", "nn", "4e" * v.bpc], ["hclose", "nn"], ["write", "tt", "55" * 10], ["hclose", "tt"]] + work
             if i % 2 == 1:
                 # operations in the ROOT directory itself (the fixed region on FAT12/16): everything below /keep and /work is protected
                 work = [["makedir", "/made in the root"], ["create", "/root file.txt"], ["makedir", "/made in the root/second level"],
